@@ -4,7 +4,7 @@
    Primitives are explicit premises: H (Keccak-256 of what a MAC hash absorbed),
    aes_block (macCipher.Encrypt), ks (AES-CTR key stream shared by both sides),
    snappy_enc/snappy_dec, recover (ECDSA public-key recovery), sign. *)
-From AQ Require Import Lib.Bytes Lib.Keccak Rlp.RlpSpec Generated.GenParamsNet Net.Frame Net.Discover Net.Limits Net.Handshake Net.NetProofs.
+From AQ Require Import Lib.Bytes Lib.Keccak Rlp.RlpSpec Generated.GenParamsNet Rlp.Typed Generated.GenAquaMsgs Net.Frame Net.FrameIO Net.Discover Net.Limits Net.Handshake Net.Messages Net.NetProofs Net.FrameIOProofs Net.MessagesProofs.
 Local Open Scope N_scope.
 
 (* ---- RLPx frames ---- *)
@@ -147,6 +147,54 @@ Theorem C17_session_truncation_detected :
     (ms1, Some RShort, mk_rstate (w_pos st1) (w_mac st1), firstn k F).
 Proof. exact session_truncation_detected. Qed.
 Print Assumptions C17_session_truncation_detected.
+
+(* The frame reader on EVERY byte stream.  read_msg_io is ReadMsg as a function of the bytes still
+   to come from the connection, together with its I/O account: bytes taken from conn, the sizes
+   passed to make / the decompressor, the frame size the header declared.  Its result component
+   IS read_msg.  For every state, every finite stream, with and without snappy, whatever H, AES,
+   key stream and decompressor are:
+   - it never takes more than the stream holds nor more than 32 + (2^24+15) + 16 bytes;
+   - every buffer is sized from a header that passed its MAC, the declared size is <= 2^24-1,
+     total allocation <= 32 + 2^24+15 (+ 2*(2^24-1) with snappy);
+   - a header-MAC failure costs 32 bytes of input and allocation, nothing is sized from it;
+   - a short read means the stream was exhausted;
+   - a delivered message consumed exactly header + padded frame + MAC, leaves the rest of the
+     stream untouched, advances the key-stream offset by 16 + padded frame, and its payload is
+     shorter than the declared frame size (snappy: the compressed payload is, the plain one was
+     declared <= 2^24-1 and is what the decompressor returned).
+   (A Go panic is not a possible outcome: every slice expression of ReadMsg is covered by the
+   preceding exact-size make / ReadFull, which is what takeN models.) *)
+Theorem C17_read_msg_io_is_read_msg :
+  forall (H aes_block : bytes -> bytes) (ks : N -> byte) (snappy_dec : bytes -> option bytes)
+         (snappy : bool) (st : rstate) (s : bytes),
+  fst (read_msg_io H aes_block ks snappy_dec snappy st s) = read_msg H aes_block ks snappy_dec snappy st s.
+Proof. exact read_msg_io_result. Qed.
+Print Assumptions C17_read_msg_io_is_read_msg.
+
+Theorem C17_read_msg_total_bounded :
+  forall (H aes_block : bytes -> bytes) (ks : N -> byte) (snappy_dec : bytes -> option bytes)
+         (snappy : bool) (st : rstate) (s : bytes),
+  let res := fst (read_msg_io H aes_block ks snappy_dec snappy st s) in
+  let io := snd (read_msg_io H aes_block ks snappy_dec snappy st s) in
+  io_consumed io <= lenN s /\
+  io_consumed io <= 32 + 16777231 + 16 /\
+  io_alloc io <= 32 + 16777231 + (if snappy then 2 * max_uint24 else 0) /\
+  (forall f, io_declared io = Some f -> f <= max_uint24 /\ io_alloc io >= 32 + frame_buf_size f) /\
+  match res with
+  | RErr RShort => io_consumed io = lenN s
+  | RErr RHeaderMac => io_consumed io = 32 /\ io_declared io = None /\ io_alloc io = 32
+  | RErr _ => exists f, io_declared io = Some f /\ io_consumed io = 32 + frame_buf_size f + 16
+  | ROk code payload st' rest =>
+    exists f, io_declared io = Some f /\ f <= max_uint24 /\
+      io_consumed io = 32 + frame_buf_size f + 16 /\
+      s = firstn (N.to_nat (io_consumed io)) s ++ rest /\
+      r_pos st' = r_pos st + 16 + frame_buf_size f /\
+      (snappy = false -> lenN payload < f) /\
+      (snappy = true -> exists c n, lenN c < f /\ snappy_declen c = Some n /\ n <= max_uint24 /\
+                                    snappy_dec c = Some payload /\ io_alloc io = 32 + frame_buf_size f + lenN c + n)
+  end.
+Proof. exact read_msg_total_bounded. Qed.
+Print Assumptions C17_read_msg_total_bounded.
 
 (* `frame` (= f_hc ++ f_hm ++ f_ct ++ f_fm) is exactly what WriteMsg emits *)
 Theorem C17_write_msg_is_frame :
@@ -327,6 +375,49 @@ Theorem C17_deliver_rule_bounded : forall (pending : option nat) (matches : list
 Proof. exact deliver_rule_bounded. Qed.
 Print Assumptions C17_deliver_rule_bounded.
 
+(* ---- per-message decoding of handleMsg.  The decode target of every `msg.Decode(&v)` branch
+   is generated by reflection (Generated/GenAquaMsgs.v, typed descriptors of C11); with C11's
+   typed theorems: whatever the payload, a message is rejected or decoded to a value v whose
+   canonical encoding c IS a prefix of the payload (nothing in v that was not sent; |c| <= msg.Size
+   <= ProtocolMaxMsgSize; a decoded list has at most |c| elements), and decoding c again gives v. *)
+Theorem C17_handle_decode_bounded : forall (code size : N) (payload : bytes) (v : val) (c : bytes),
+  handle_decode code size payload = HdAccept v c ->
+  size <= protocol_max_msg_size /\ code <> 0 /\
+  exists t rest, msg_decode_type code = Some t /\ wf t = true /\
+    payload = c ++ rest /\ enc_typed t v = Some c /\ dec_typed t c = Some v /\
+    lenN c <= lenN payload /\ (size <= lenN payload -> lenN c <= size) /\
+    (forall l, v = VList l -> match t with TSlice _ => N.of_nat (length l) <= lenN c | _ => True end).
+Proof. exact handle_decode_bounded. Qed.
+Print Assumptions C17_handle_decode_bounded.
+
+(* a response to GetBlockBodies / GetNodeData / GetReceipts: at most the fetch limit of that request
+   (itself <= 384) entries, total size within one entry of softResponseLimit, at most one lookup per
+   request element — for every request *)
+Theorem C17_response_bounded : forall (code limit : N) (l : list elem) (c b k maxsz : N),
+  fetch_limit code = Some limit ->
+  (forall n, In (EHash (Some n)) l -> n <= maxsz) ->
+  serve limit 0 0 0 l = SOk c b k ->
+  c <= limit /\ limit <= 384 /\ b < soft_response_limit + maxsz /\ k <= lenN l.
+Proof. exact response_bounded. Qed.
+Print Assumptions C17_response_bounded.
+
+(* the per-peer known-transaction / known-block sets stay within maxKnownTxs / maxKnownBlocks *)
+Theorem C17_mark_known_bounded : forall (max card : N) (already popped_self : bool),
+  0 < max -> card <= max -> mark_known max card already popped_self <= max.
+Proof. exact mark_known_bounded. Qed.
+Print Assumptions C17_mark_known_bounded.
+
+(* the generated decode table: codes, well-formedness of every descriptor, the caps, and that it
+   covers exactly the codes handleMsg dispatches on — re-checked against the regenerated files *)
+Theorem C17_aqua_msgs_pinned :
+  map fst aqua_msg_types = [0; 1; 2; 4; 6; 7; 14; 16] /\ aqua_hash_stream_codes = [5; 13; 15] /\ aqua_custom_codes = [3] /\
+  forallb (fun p => wf (snd p)) aqua_msg_types = true /\
+  g_max_known_txs = 32768 /\ g_max_known_blocks = 1024 /\
+  forallb (fun c => existsb (N.eqb c) (map fst aqua_msg_types ++ aqua_hash_stream_codes ++ aqua_custom_codes)) g_aqua_codes = true /\
+  forallb (fun c => existsb (N.eqb c) g_aqua_codes) (map fst aqua_msg_types ++ aqua_hash_stream_codes ++ aqua_custom_codes) = true.
+Proof. exact aqua_msgs_pinned. Qed.
+Print Assumptions C17_aqua_msgs_pinned.
+
 (* ---- constants regenerated from /repo on every run (Generated/GenParamsNet.v),
         pinned to the documented values and to the relations the models use ---- *)
 Theorem C17_net_params_pinned :
@@ -384,3 +475,27 @@ Proof.
   split; [|vm_compute; reflexivity].
   repeat split; try (vm_compute; reflexivity); repeat constructor; try discriminate; intros x; reflexivity.
 Qed.
+
+(* the I/O account on a concrete stream: a 4-byte frame (code 16, payload 01 02 03) followed by one
+   more byte: 64 bytes consumed, 32 + 16 bytes of buffers, declared size 4; on 40 bytes of noise:
+   header MAC failure after exactly 32 bytes, nothing sized from the header *)
+Example C17_example_read_io :
+  let aes := fun b : bytes => map (fun x => bxor x x5a) (firstn 16 (b ++ repeat x00 16)) in
+  let ks := fun n : N => n2b (n * 7 + 3) in
+  match write_msg keccak256 aes ks (fun p => p) false (mk_wstate 0 [x11; x22]) 16 [x01; x02; x03] with
+  | WOk out _ =>
+      snd (read_msg_io keccak256 aes ks (fun p => Some p) false (mk_rstate 0 [x11; x22]) (out ++ [xff])) = mk_rio 64 48 (Some 4) /\
+      read_msg_io keccak256 aes ks (fun p => Some p) false (mk_rstate 0 [x11; x22]) (repeat x07 40) = (RErr RHeaderMac, mk_rio 32 32 None)
+  | WErr _ => False
+  end.
+Proof. vm_compute. split; reflexivity. Qed.
+
+(* a NewBlockHashes payload with one announcement and trailing garbage is accepted, its value re-encodes
+   to the 36-byte prefix; the same bytes under the Transactions code are rejected *)
+Example C17_example_handle_decode :
+  let ann := encode (Lst [Lst [Str (repeat x07 32); Str [x09]]]) in
+  match handle_decode 1 100 (ann ++ [xff; xff]) with
+  | HdAccept (VList [VList [VStr h; VNum 9]]) c => c = ann /\ lenN c = 36 /\ h = repeat x07 32
+  | _ => False
+  end /\ handle_decode 2 100 (ann ++ [xff; xff]) = HdReject /\ handle_decode 1 10485761 ann = HdTooLarge.
+Proof. vm_compute. repeat split; reflexivity. Qed.
